@@ -10,7 +10,7 @@ import (
 )
 
 func tameOpts() gendoc.GenOpts {
-	return gendoc.GenOpts{Tame: true, MaxComps: 3, MaxPaths: 3, MaxDepth: 2, RefProb: 0.5, Tags: []string{"a", "b", "c", "x"},
+	return gendoc.GenOpts{Tame: true, MaxComps: 3, MaxPaths: 3, MaxDepth: 2, RefProb: 0.5, Tags: []string{"a", "b", "c", "x", "A", "C"},
 		KindsUsed: []string{"schemas", "parameters", "securitySchemes", "requestBodies", "responses", "headers", "examples", "links", "callbacks"}}
 }
 
